@@ -303,6 +303,10 @@ func oracle(c Case, idx int, peers map[uint64]*peerInfo, out *ChildOut) {
 					viol("alien-record", fmt.Sprintf("reader %d received record id %d sender %d seq %d that nobody sent", s.N, it.ID, it.Sender, it.Seq))
 					continue
 				}
+				if o.Size > maxMessage {
+					viol("oversize-relayed", fmt.Sprintf("reader %d received record id %d of %d bytes, above the %d byte limit", s.N, it.ID, o.Size, maxMessage))
+					continue
+				}
 				if l, ok := last[it.Sender]; ok {
 					if it.Seq <= l {
 						viol("repeat-or-reorder", fmt.Sprintf("reader %d: from writer %d seq %d after seq %d", s.N, it.Sender, it.Seq, l))
